@@ -30,7 +30,9 @@ use crate::common::error::{Error, KeyErrorType};
 use crate::common::result::Result;
 use crate::common::{constants, helpers, logger};
 use crate::provision;
-use crate::proxy::authorization_rules::{AuthorizationRulesForLogging, ComputedAuthorizationRules};
+use crate::proxy::authorization_rules::{
+    AuthorizationRulesForLogging, ComputedAuthorizationItem, ComputedAuthorizationRules,
+};
 use crate::shared_state::agent_status_wrapper::{AgentStatusModule, AgentStatusSharedState};
 use crate::shared_state::key_keeper_wrapper::KeyKeeperSharedState;
 use crate::shared_state::provision_wrapper::ProvisionSharedState;
@@ -311,7 +313,13 @@ impl KeyKeeper {
                 .await
             {
                 Ok((updated, old_wire_server_rule_id)) => {
-                    if updated {
+                    let stored = self.key_keeper_shared_state.get_wireserver_rules().await;
+                    if updated
+                        || Self::rules_outdated(
+                            stored.unwrap_or(None),
+                            status.get_wireserver_rules(),
+                        )
+                    {
                         logger::write_warning(format!(
                             "Wireserver rule id changed from '{}' to '{}'.",
                             old_wire_server_rule_id, wireserver_rule_id
@@ -337,7 +345,10 @@ impl KeyKeeper {
                 .await
             {
                 Ok((updated, old_imds_rule_id)) => {
-                    if updated {
+                    let stored = self.key_keeper_shared_state.get_imds_rules().await;
+                    if updated
+                        || Self::rules_outdated(stored.unwrap_or(None), status.get_imds_rules())
+                    {
                         logger::write_warning(format!(
                             "IMDS rule id changed from '{}' to '{}'.",
                             old_imds_rule_id, imds_rule_id
@@ -363,7 +374,10 @@ impl KeyKeeper {
                 .await
             {
                 Ok((updated, old_hostga_rule_id)) => {
-                    if updated {
+                    let stored = self.key_keeper_shared_state.get_hostga_rules().await;
+                    if updated
+                        || Self::rules_outdated(stored.unwrap_or(None), status.get_hostga_rules())
+                    {
                         logger::write_warning(format!(
                             "HostGA rule id changed from '{}' to '{}'.",
                             old_hostga_rule_id, hostga_rule_id
@@ -584,6 +598,35 @@ impl KeyKeeper {
                     logger::write_warning(format!("Failed to update secure channel state: {}", e));
                 }
             }
+        }
+    }
+
+    /// The rules kept for an endpoint are outdated when the latest status document carries a different item for it,
+    /// whether or not the rule id changed: a mode switch keeps the id, an item may carry the empty id the state
+    /// starts with, and an item can disappear while its id compares equal to "no item".
+    fn rules_outdated(
+        stored: Option<ComputedAuthorizationItem>,
+        latest: Option<key::AuthorizationItem>,
+    ) -> bool {
+        fn normalized(item: &ComputedAuthorizationItem) -> Option<serde_json::Value> {
+            let mut value = serde_json::to_value(item).ok()?;
+            if let Some(assignments) = value
+                .get_mut("privilegeAssignments")
+                .and_then(|a| a.as_object_mut())
+            {
+                for identities in assignments.values_mut() {
+                    if let Some(names) = identities.as_array_mut() {
+                        names.sort_by(|a, b| a.as_str().cmp(&b.as_str()));
+                    }
+                }
+            }
+            Some(value)
+        }
+        let latest = latest.map(ComputedAuthorizationItem::from_authorization_item);
+        match (stored, latest) {
+            (None, None) => false,
+            (Some(stored), Some(latest)) => normalized(&stored) != normalized(&latest),
+            _ => true,
         }
     }
 
